@@ -81,6 +81,11 @@ pub enum RuntimeErrorKind {
     #[error("Empty list")]
     EmptyList,
 
+    #[error(
+        "Expression too large: the code of a conditional expression exceeds the maximum size of 65535 bytes"
+    )]
+    CodeTooLarge,
+
     #[error("Could not write to file: {0:?}")]
     FileWrite(std::path::PathBuf),
 
